@@ -237,6 +237,27 @@ def boundary_value_case(col, how):
                              "input": {"entry": how, "initial_value": x0.tolist(), "distribution": "Exponential(1)"}})
 
 
+def observed_variable_case(col, how):
+    """transforming a variable flagged OBSERVED (the flag stays on the original variable): the original keeps no distribution of its own and the model counts the
+    density once - log_prob = original log-density at b(t) + log|det db/dt|"""
+    import tensorflow_probability.substrates.jax.bijectors as tfb_
+    import tensorflow_probability.substrates.jax.distributions as tfd_
+    y = lsl.obs(np.float32(1.7), lsl.Dist(tfd_.Gamma, concentration=2.0, rate=1.5), name="y")
+    t = y.transform(tfb_.Exp()) if how == "instance" else y.transform()
+    model = lsl.GraphBuilder().add(y).build_model()
+    tv = float(model.vars["y_transformed"].value)
+    b = tfb_.Exp() if how == "instance" else tfd_.Gamma(2.0, 1.5).experimental_default_event_space_bijector()
+    want = float(tfd_.Gamma(2.0, 1.5).log_prob(b.forward(np.float32(tv))) + b.forward_log_det_jacobian(np.float32(tv), event_ndims=0))
+    bad = []
+    if y.dist_node is not None or y.has_dist:
+        bad.append("the original (observed) variable still has a distribution of its own")
+    if not np.isclose(float(model.log_prob), want, rtol=1e-4, atol=1e-4):
+        bad.append(f"model.log_prob = {float(model.log_prob):.5f}, the transformed density alone is {want:.5f}")
+    if y.observed is not True:
+        bad.append("the observed flag of the original variable changed")
+    col.add(None if not bad else {"sig": "native::transform::observed_variable", "what": f"{how}: " + "; ".join(bad), "input": {"entry": how, "variable": "y = lsl.obs(1.7, Gamma(2, 1.5))"}})
+
+
 def bounded(tier, seed):
     col = util.Collector()
     from rtc.c01 import CORE_RULE, core_native
@@ -246,6 +267,11 @@ def bounded(tier, seed):
             liesel_bijector_case(col, how)
         except Exception as e:
             col.add({"sig": f"native::transform::exception::{type(e).__name__}", "what": f"AlgebraicSigmoid/{how}: {str(e)[:200]}", "input": {"entry": how}})
+    for how in ("instance", "default"):
+        try:
+            observed_variable_case(col, how)
+        except Exception as e:
+            col.add({"sig": f"native::transform::exception::{type(e).__name__}", "what": f"observed variable/{how}: {str(e)[:200]}", "input": {"entry": how}})
     for how in ("auto", "manual"):
         try:
             boundary_value_case(col, how)
